@@ -7,7 +7,7 @@ if ! git -C /repo diff --quiet; then echo "REFUSING: /repo has uncommitted chang
 P=/verif/seeded/$S/patch.diff
 [ -f /verif/seeded/$S/patch.ported.diff ] && P=/verif/seeded/$S/patch.ported.diff
 if ! git -C /repo apply $P 2>/dev/null; then
-  if ! git -C /repo apply --3way $P 2>/dev/null; then echo "$S: PATCH-DOES-NOT-APPLY"; git -C /repo checkout -q -- . ; git -C /repo reset -q; exit 4; fi
+  if ! git -C /repo apply --3way $P 2>/dev/null; then echo "$S: PATCH-DOES-NOT-APPLY"; git -C /repo reset -q --hard HEAD; exit 4; fi
   git -C /repo reset -q
 fi
 ./run $ID $TIER > .cache/seed_$S.log 2>&1; rc=$?
